@@ -90,7 +90,9 @@ function plan (seed, run, tier) {
     // rarely: more than a thousand other files are rewritten through the caching rewriter
     if (run % 40 === 7 && i === (nOps >> 1)) ops.push({ op: 'RewriteBurst', n: 1001 })
   }
-  return { cfgs, files, lookups, ops, tag: allowMsgAt ? 'msg-at-allowed' : '' }
+  // the rewriter's logger may be on for the whole run (process-wide level on the Rust side)
+  const logLevel = rng.pick(['off', 'off', 'off', 'debug', 'trace'])
+  return { cfgs, files, lookups, ops, logLevel, tag: allowMsgAt ? 'msg-at-allowed' : '' }
 }
 
 function fsFor (plan, file, code) {
@@ -108,13 +110,14 @@ function jobs (plan) {
   const out = []
   for (const op of plan.ops) {
     if (op.op === 'RewriteBurst') {
-      for (let i = 0; i < op.n; i++) out.push({ cfg: plan.cfgs[0], prng_seed: 1, file: `/sim/burst/rw${i}.js`, code: BURST_CODE })
+      for (let i = 0; i < op.n; i++) { const j = { cfg: plan.cfgs[0], prng_seed: 1, file: `/sim/burst/rw${i}.js`, code: BURST_CODE }; if (plan.logLevel && plan.logLevel !== 'off') j.log_level = plan.logLevel; out.push(j) }
       continue
     }
     if (op.op === 'Rewrite' || op.op === 'NonCacheRewrite') {
       const f = plan.files[op.f]; if (!f) continue
       const v = f.versions[op.v]; if (!v) continue
       const job = { cfg: plan.cfgs[op.rw || 0] || plan.cfgs[0], prng_seed: 1, file: f.path, code: v.text }
+      if (plan.logLevel && plan.logLevel !== 'off') job.log_level = plan.logLevel
       const ff = fsFor(plan, f.path, v.text)
       if (ff) job.fs = ff
       out.push(job)
@@ -132,7 +135,7 @@ function execute (plan, table) {
   const st = (k, n) => { rep.stats[k] = (rep.stats[k] || 0) + (n === undefined ? 1 : n) }
   const viol = (invariant, key, detail) => { if (!rep.violations.find(v => v.key === key)) rep.violations.push({ invariant, key, detail }) }
   const simfs = new SimFs()
-  const adapter = makeAdapter(table, { fsFor: (file, code) => fsFor(plan, file, code) })
+  const adapter = makeAdapter(table, { fsFor: (file, code) => fsFor(plan, file, code), logLevel: plan.logLevel && plan.logLevel !== 'off' ? plan.logLevel : null })
   const { pkg } = loadPackage(adapter, simfs.module)
   const origPST = Object.getOwnPropertyDescriptor(Error, 'prepareStackTrace')
   const origLimit = Error.stackTraceLimit
